@@ -2,9 +2,12 @@
 (* C03 (and the decoder half of C19).  A record is one print of a sequence of styled segments
    on one console configuration:
      cfg   [system ("none","standard","256","truecolor","windows"), nocolor, terminal, legacy]
-     segs  the segments as printed: text (code points; 10 = newline) and the pen the style MEANS
-           (attributes that are set to True, colours after the documented down-conversion done
-           by the driver with Color.downgrade - C18's subject -, link unless legacy windows)
+     segs  the segments as printed: text (code points; 10 = newline) and the styles it was printed
+           with, bottom to top, as layers [on, off (attributes set to True / False), fg, bg (a colour
+           after the documented down-conversion done by the driver with Color.downgrade - C18's
+           subject - or k = "unset"), link (id, 0 = unset)]: a base style given to the console or to
+           print() lies under the segment's own style
+     ctls  the control segments printed, tokenised (<<"ctl", cp>> / <<"esc", code points>>)
      out   the characters the console wrote, tokenised lexically (engine/sgrlex.py)
      dec   (truecolor only) what rich.ansi.AnsiDecoder made of that output: per character <<cp, pen>>
    TLC interprets `out` with the independent terminal automaton Sgr.tla and judges.           *)
@@ -15,6 +18,22 @@ VARIABLE tid
 R == Recs[tid]
 
 PenOf(p) == [attrs |-> {p.attrs[i] : i \in DOMAIN p.attrs}, fg |-> p.fg, bg |-> p.bg, link |-> p.link]
+SetOf(q) == {q[i] : i \in DOMAIN q}
+\* what a stack of styles means: an upper layer wins exactly where it specifies a value
+RECURSIVE Over(_, _)
+Over(pen, ls) ==
+    IF ls = <<>> THEN pen
+    ELSE LET y == Head(ls) IN
+         Over([attrs |-> (pen.attrs \ SetOf(y.off)) \cup SetOf(y.on),
+               fg |-> IF y.fg.k = "unset" THEN pen.fg ELSE y.fg,
+               bg |-> IF y.bg.k = "unset" THEN pen.bg ELSE y.bg,
+               link |-> IF y.link = 0 THEN pen.link ELSE y.link], Tail(ls))
+\* ... on this console: nothing with colour disabled, no colours under NO_COLOR, no hyperlink on legacy windows
+Means(ls) ==
+    LET p == Over(NullPen, ls) IN
+    IF R.cfg.system = "none" THEN NullPen
+    ELSE [attrs |-> p.attrs, fg |-> IF R.cfg.nocolor THEN Def ELSE p.fg, bg |-> IF R.cfg.nocolor THEN Def ELSE p.bg,
+          link |-> IF R.cfg.legacy THEN 0 ELSE p.link]
 \* the cells the terminal shows: every character with its pen, newlines included as characters
 RECURSIVE Cells(_, _, _)
 Cells(pen, es, acc) ==
@@ -28,11 +47,15 @@ Cells(pen, es, acc) ==
 Shown == Cells(NullPen, R.out, <<>>)
 RECURSIVE Want(_, _)
 Want(segs, acc) == IF segs = <<>> THEN acc
-                   ELSE Want(Tail(segs), acc \o [i \in DOMAIN Head(segs).text |-> <<Head(segs).text[i], PenOf(Head(segs).pen)>>])
+                   ELSE Want(Tail(segs), acc \o [i \in DOMAIN Head(segs).text |-> <<Head(segs).text[i], Means(Head(segs).layers)>>])
 Expected == Want(R.segs, <<>>)
 
 HasEscape == \E i \in DOMAIN R.out : R.out[i][1] \in {"sgr", "link", "unk"}
-HasControl == \E i \in DOMAIN R.out : R.out[i][1] \in {"ctl", "unk"}
+IsControl(e) == e[1] \in {"ctl", "esc"}
+HasControl == \E i \in DOMAIN R.out : IsControl(R.out[i]) \/ R.out[i][1] = "unk"
+\* the control codes written are those of the control segments, in order (on a terminal)
+Codes(es) == [i \in DOMAIN es |-> IF es[i][1] = "ctl" THEN <<es[i][2]>> ELSE es[i][2]]
+Controls == Codes(SelectSeq(R.out, IsControl))
 HasColourParam == \E i \in DOMAIN R.out : R.out[i][1] = "sgr" /\ ColourParams(R.out[i][2], 1) > 0
 \* on a newline cell only the character counts (a pen on a line break shows nothing)
 SameCell(a, b) == a[1] = b[1] /\ (a[1] = 10 \/ a[2] = b[2])
@@ -47,6 +70,7 @@ Verdict ==
     ELSE IF R.cfg.nocolor /\ HasColourParam THEN "colour-parameter-under-NO_COLOR"
     ELSE IF ~R.cfg.terminal /\ HasControl THEN "control-code-on-non-terminal"
     ELSE IF \E i \in DOMAIN R.out : R.out[i][1] = "unk" THEN "unknown-escape-sequence"
+    ELSE IF R.cfg.terminal /\ Controls # Codes(R.ctls) THEN "control-codes-differ"
     ELSE IF Len(Shown.cells) # Len(Expected) THEN "visible-characters-differ"
     ELSE IF \E i \in DOMAIN Expected : ~SameCell(Shown.cells[i], Expected[i])
          THEN "cell-differs:" \o What(Shown.cells[FirstDiff(Shown.cells, Expected)], Expected[FirstDiff(Shown.cells, Expected)])
